@@ -5,7 +5,7 @@ from spec import idt as SI
 from ..bits import BV, TOP, lit, b_not
 from ..interp import State, Unsupported
 from ..values import UNIT, Array, Enum, Opaque, Ptr, Ref, Struct
-from .common import (asm_not_pure, is_call_of, U8, adt, arg_obj, bv, enum_val, eval_bv, eval_value, fn_site, inner, same, sl, _env_of, admits)
+from .common import (dtp_layout, asm_not_pure, is_call_of, U8, adt, arg_obj, bv, enum_val, eval_bv, eval_value, fn_site, inner, same, sl, _env_of, admits)
 
 LEVEL = 'proof'
 IDT = 'structures::idt::InterruptDescriptorTable'
@@ -37,6 +37,7 @@ def run(chk):
     chk.guard('table', 'new/reset/pointer/load', lambda: table(chk, idt_lay))
     chk.guard('table', 'Default', lambda: is_call_of(chk, chk.I, 'table', '<%s as core::default::Default>::default' % IDT, IDT + '::new', 'InterruptDescriptorTable::default() is new()'))
     chk.guard('entry', 'Entry::eq', lambda: entry_eq(chk))
+    chk.guard('layout', 'lidt operand', lambda: dtp_layout(chk))
     chk.guard('asm-options', 'lidt / cs read', lambda: asm_not_pure(chk, chk.I, 'asm-options', ['src/instructions/tables.rs', 'src/instructions/segmentation.rs'], 20))
     chk.floor('obligations', len(chk.obs), 900)
 
